@@ -180,6 +180,8 @@ def enumerate_sites(prog, body):
 
 # ------------------------------------------------------------------ intervals (flow-insensitive over unique definitions; sound, incomplete)
 ISIZE_MAX = 2 ** 63 - 1
+# invariants of private integer fields, filled by fieldinv.compute (empty: every field has its type range)
+FIELD_INV = {}
 
 
 VALUE_WRAPPERS = {'branch', 'map_err', 'ok_or', 'ok_or_else', 'try_from', 'try_into', 'from', 'into', 'unwrap', 'expect', 'unwrap_or_default'}
@@ -304,6 +306,14 @@ def interval(body, e, depth=0, ty_hint=None):
             mm = re.search(r'\[u8; (\d+)\]', aty)
             if mm and 'Vec' not in aty:
                 return (int(mm.group(1)), int(mm.group(1)))
+            # the remainder of chunks_exact(_mut)(K) is shorter than K
+            ie = deref_expr(body, expr_of(body, t.args[0]))
+            if ie[0] == 'call' and ie[2].cmethod in ('into_remainder', 'remainder') and 'ChunksExact' in (ie[2].cargs + cnorm(ie[2])) and ie[2].args:
+                ce = deref_expr(body, expr_of(body, ie[2].args[0]))
+                if ce[0] == 'call' and ce[2].cmethod in ('chunks_exact', 'chunks_exact_mut') and len(ce[2].args) == 2:
+                    kv = interval(body, ce[2].args[1], depth + 1)
+                    if kv is not None and kv[1] >= 1:
+                        return (0, kv[1] - 1)
             return (0, ISIZE_MAX)
         if cn in ('std::cmp::min', 'core::cmp::min') or (m == 'min' and len(t.args) == 2):
             a = interval(body, t.args[0], depth + 1)
@@ -355,6 +365,9 @@ def interval(body, e, depth=0, ty_hint=None):
         if projs:
             last = projs[-1]
             if last[0] == 'f':
+                fi = FIELD_INV.get((strip_generics(str(last[3])), last[1])) if FIELD_INV else None
+                if fi is not None:
+                    return fi
                 return type_range(last[4])
             return None
         return type_range(body.lty(l))
@@ -389,6 +402,8 @@ def canon(body, op, depth=0):
             if inner[0] in ('ref', 'place'):
                 pl = norm_place_c(body, inner[1])
                 return ('len', pl[0], tuple((p[0], p[1]) if p[0] in ('f', 'down') else (p[0],) for p in pl[1] if p[0] != 'deref'))
+            if inner[0] == 'call' and inner[2].dest is not None and not inner[2].dest[1] and re.match(r"^&(?:'[a-z_]+ )?(?:mut )?\[", body.lty(inner[2].dest[0]).strip()):
+                return ('len', inner[2].dest[0], ())      # length of the slice reference another call returned
         return ('call', e[1])
     if e[0] == 'unop' and e[1] == 'PtrMetadata':
         inner = e[2]
@@ -419,14 +434,14 @@ def norm_place_c(body, pl, depth=0):
     return pl
 
 
-def written_between(body, gbb, sbb, c):
-    """may the value identified by canonical c change between the guard block and the site block?"""
+def written_between(body, gbb, sbb, c, upto=None):
+    """may the value identified by canonical c change between the guard block and the site block (statements of the site block before index `upto` only, when given)?"""
     if c[0] in ('const', 'call'):
         return False
     if c[0] == 'unknown':
         return True
     if c[0] == 'binop':
-        return written_between(body, gbb, sbb, c[2]) or written_between(body, gbb, sbb, c[3])
+        return written_between(body, gbb, sbb, c[2], upto) or written_between(body, gbb, sbb, c[3], upto)
     l = c[1]
     # blocks on a path gbb -> sbb that does not pass through gbb or sbb again (precise inside loops)
     fwd = set()
@@ -454,8 +469,23 @@ def written_between(body, gbb, sbb, c):
                 st.append(p_)
     between = (fwd & bwd) - {gbb}
     ma = mutarg_defs(body)
+    # the length of the slice a reference local points to changes only when the local itself is reassigned (a `&mut [u8]` handed to a call keeps its length)
+    len_of_ref = c[0] == 'len' and not c[2] and re.match(r"^&(?:'[a-z_]+ )?(?:mut )?\[", body.lty(l).strip()) is not None
+    revisits = False
+    if upto is not None:
+        # can the site block be entered again without passing the guard (a loop around the site)? then all its statements count
+        seen_, st_ = set(), list(body.succs(sbb))
+        while st_:
+            b_ = st_.pop()
+            if b_ in seen_ or b_ == gbb:
+                continue
+            seen_.add(b_)
+            st_.extend(body.succs(b_))
+        revisits = sbb in seen_
     for b in between | {sbb}:
-        for s_ in body.blocks[b].stmts:
+        for si_, s_ in enumerate(body.blocks[b].stmts):
+            if b == sbb and upto is not None and si_ >= upto and not revisits:
+                break
             if s_.kind in ('assign', 'setdiscr') and s_.place[0] == l:
                 if not s_.place[1] or not c[2]:
                     return True
@@ -465,6 +495,8 @@ def written_between(body, gbb, sbb, c):
                     return True
         t = body.blocks[b].term
         if b != sbb and t.kind == 'call':
+            if len_of_ref:
+                continue
             for (bb2, t2, ai) in ma.get(l, []):
                 if bb2 == b:
                     return True
@@ -474,8 +506,29 @@ def written_between(body, gbb, sbb, c):
                     if a.place is not None and (a.place[0] == l or l in origins(body, [a.place[0]], through_calls=False).params) and t.cmethod not in REF_PASSTHROUGH | {'len', 'position', 'is_empty', 'get', 'contains', 'contains_key'}:
                         aty = t.arg_tys[t.args.index(a)] if t.args.index(a) < len(t.arg_tys) else ''
                         if '&mut' in aty:
+                            # ... unless what is handed over is a unique borrow of a *different* field of the same struct (`&mut self.cipher`): disjoint
+                            if _disjoint_field_borrow(body, a, l, c[2]):
+                                continue
                             return True
     return False
+
+
+def _disjoint_field_borrow(body, a, l, cprojs):
+    """operand `a` is (a copy of) `&mut (*l).g..` with a field path that neither contains nor is contained in the canonical path cprojs of a place under *l"""
+    e = expr_of(body, a)
+    if e[0] != 'ref':
+        return False
+    pl = norm_place_c(body, e[1])
+    if pl[0] != l:
+        return False
+    fa = [p[1] for p in pl[1] if p[0] == 'f']
+    fc = [p[1] for p in cprojs if p[0] == 'f']
+    if not fa or not fc:
+        return False
+    if any(p[0] in ('idx', 'cidx', 'down') for p in pl[1]):
+        return False
+    n = min(len(fa), len(fc))
+    return fa[:n] != fc[:n]
 
 
 def guards_on_path(prog, body, bb):
@@ -494,7 +547,7 @@ def guards_on_path(prog, body, bb):
     return out
 
 
-def relations(prog, body, bb):
+def relations(prog, body, bb, upto=None):
     """relations between canonical values that hold on every path to bb: list of (rel, x, y, guard_bb) with rel in 'lt','le','eq','ne'"""
     out = []
     for (e, taken, d) in guards_on_path(prog, body, bb):
@@ -521,7 +574,7 @@ def relations(prog, body, bb):
         elif op == 'Ne':
             rel = ('ne', x, y) if val else ('eq', x, y)
         if rel:
-            if written_between(body, d, bb, rel[1]) or written_between(body, d, bb, rel[2]):
+            if written_between(body, d, bb, rel[1], upto) or written_between(body, d, bb, rel[2], upto):
                 continue
             out.append(rel + (d,))
     return out
@@ -540,14 +593,14 @@ def established_le(prog, body, bb, small, big, strict=False):
     return False
 
 
-def refined_interval(prog, body, bb, op):
+def refined_interval(prog, body, bb, op, upto=None):
     """interval of op refined by dominating comparisons of the same value with constants"""
     iv = interval(body, op)
     c = canon(body, op)
     if c[0] == 'unknown':
         return iv
     lo, hi = iv if iv else (None, None)
-    for (rel, x, y, d) in relations(prog, body, bb):
+    for (rel, x, y, d) in relations(prog, body, bb, upto):
         if x == c and y[0] == 'const' and y[1] is not None:
             k = y[1]
             if rel == 'lt':
@@ -683,6 +736,104 @@ def len_lower_bound(prog, body, bb, slice_op):
     return lo
 
 
+def _cval(c):
+    """canonical term with named constants reduced to their value"""
+    if c[0] == 'const':
+        return ('const', c[1])
+    if c[0] == 'binop':
+        return ('binop', c[1], _cval(c[2]), _cval(c[3]))
+    return c
+
+
+def _mk_sub(a, b):
+    a, b = _cval(a), _cval(b)
+    if a[0] == 'const' and b[0] == 'const' and a[1] is not None and b[1] is not None:
+        return ('const', a[1] - b[1])
+    if b == ('const', 0):
+        return a
+    # (x + y) - x = y
+    if a[0] == 'binop' and a[1] == 'Add':
+        if a[2] == b:
+            return a[3]
+        if a[3] == b:
+            return a[2]
+    return ('binop', 'Sub', a, b)
+
+
+def sym_len(body, op, depth=0):
+    """(term, creation block or None): canonical term for the length of the slice `op` refers to -- a constant, the `len` of a slice reference,
+    or an expression of canonical values (range ends, split points) -- or None. The term is evaluated where the slice is created."""
+    if depth > 8 or op is None:
+        return None
+    K = slice_len_of(body, op) if not isinstance(op, tuple) else None
+    if K is not None:
+        return (('const', K), None)
+    e = deref_expr(body, expr_of(body, op) if not isinstance(op, tuple) else op)
+    while e[0] == 'cast':
+        e = e[1]
+    if e[0] == 'call':
+        ct = e[2]
+        if ct.cmethod in ('index', 'index_mut') and len(ct.args) >= 2:
+            r = expr_of(body, ct.args[1])
+            if r[0] == 'agg':
+                nm = r[3].j.get('adt', '').rsplit('::', 1)[-1]
+                cs = [canon(body, o) for o in r[3].ops]
+                if any(c[0] == 'unknown' for c in cs):
+                    return None
+                if nm == 'RangeTo' and len(cs) == 1:
+                    return (_cval(cs[0]), e[1])
+                if nm == 'Range' and len(cs) == 2:
+                    return (_mk_sub(cs[1], cs[0]), e[1])
+                if nm == 'RangeFrom' and len(cs) == 1:
+                    base = sym_len(body, ct.args[0], depth + 1)
+                    if base is not None:
+                        return (_mk_sub(base[0], cs[0]), e[1])
+                if nm == 'RangeFull':
+                    return sym_len(body, ct.args[0], depth + 1)
+            return None
+        if ct.cmethod in ('deref', 'deref_mut', 'as_slice', 'as_mut_slice', 'as_ref', 'as_mut', 'borrow', 'borrow_mut') and ct.args and 'Vec' not in (ct.arg_tys[0] if ct.arg_tys else 'Vec'):
+            return sym_len(body, ct.args[0], depth + 1)
+        if ct.dest is not None and not ct.dest[1] and re.match(r"^&(?:'[a-z_]+ )?(?:mut )?\[", body.lty(ct.dest[0]).strip()):
+            # a slice reference returned by some other call: its own length, named by the local holding it
+            return (('len', ct.dest[0], ()), e[1])
+        return None
+    if e[0] in ('place', 'ref'):
+        pl = norm_place_c(body, e[1])
+        l, projs = pl
+        projs = tuple(p for p in projs if p[0] != 'deref')
+        # a half of split_at(_mut)
+        if len(projs) == 1 and projs[0][0] == 'f' and body.lty(l).startswith('(&'):
+            d = unique_def(body, l)
+            if d is not None and d[2] == 'call' and d[3].cmethod in ('split_at', 'split_at_mut') and len(d[3].args) == 2:
+                k = canon(body, d[3].args[1])
+                if k[0] == 'unknown':
+                    return None
+                if projs[0][1] == 0:
+                    return (_cval(k), d[0])
+                base = sym_len(body, d[3].args[0], depth + 1)
+                if base is not None:
+                    return (_mk_sub(base[0], k), d[0])
+            return None
+        if not projs and re.match(r"^&(?:'[a-z_]+ )?(?:mut )?\[", body.lty(l).strip()):
+            return (('len', l, ()), None)
+        if projs and all(p[0] in ('f', 'down') for p in projs) and re.match(r"^&(?:'[a-z_]+ )?(?:mut )?\[", str(projs[-1][4]).strip() if projs[-1][0] == 'f' else ''):
+            return (('len', l, tuple((p[0], p[1]) for p in projs)), None)
+    return None
+
+
+def _term_stable(body, term, created_bb, site_bb):
+    """the canonical values a symbolic length is made of are not written between the creation of the slice and the site"""
+    if created_bb is None or created_bb == site_bb:
+        return True
+    if term[0] == 'const':
+        return True
+    if term[0] == 'binop':
+        return _term_stable(body, term[2], created_bb, site_bb) and _term_stable(body, term[3], created_bb, site_bb)
+    if term[0] in ('place', 'len'):
+        return body.dominates(created_bb, site_bb) and not written_between(body, created_bb, site_bb, term)
+    return False
+
+
 def discharge(prog, body, s):
     """returns a reason string if the site provably cannot panic, else None"""
     k = s.kind
@@ -762,10 +913,16 @@ def discharge(prog, body, s):
             bounds = None
             if e[0] == 'agg' and e[3].j.get('agg') == 'adt':
                 nm = e[3].j.get('adt', '').rsplit('::', 1)[-1]
-                vals = [interval(body, o) for o in e[3].ops]
+                vals = [refined_interval(prog, body, s.bb, o) for o in e[3].ops]
                 if all(v is not None for v in vals):
                     if nm == 'Range' and len(vals) == 2:
                         bounds = (vals[0], vals[1])
+                        # a..a+n : start <= end whenever the addition itself does not overflow (checked as a site of its own)
+                        ca_, cb_ = _cval(canon(body, e[3].ops[0])), _cval(canon(body, e[3].ops[1]))
+                        if cb_[0] == 'binop' and cb_[1] == 'Add' and ca_[0] != 'unknown' and ca_ in (cb_[2], cb_[3]) and vals[1][1] <= ISIZE_MAX * 2 + 1:
+                            bounds = ((vals[0][0], min(vals[0][1], vals[1][1])), (max(vals[1][0], vals[0][0]), vals[1][1]))
+                            if bounds[0][1] > bounds[1][0]:
+                                bounds = ((0, 0), vals[1]) if False else ('ordered', vals[1])
                     elif nm == 'RangeTo':
                         bounds = ((0, 0), vals[0])
                     elif nm == 'RangeFrom':
@@ -788,6 +945,10 @@ def discharge(prog, body, s):
                 d0 = describe(body, t.args[0], 1)
                 if d0 in facts:
                     K = facts[d0]
+            if K is not None and bounds is not None and bounds[0] == 'ordered':
+                if bounds[1][1] <= K:
+                    return 'range a..a+n with the end %s within length %d' % (bounds[1], K)
+                bounds = None
             if K is not None and bounds is not None:
                 lo, hi = bounds
                 if hi is None:
@@ -802,6 +963,10 @@ def discharge(prog, body, s):
             lb = slice_len_of(body, t.args[1])
             if la is not None and la == lb:
                 return 'both sides have constant length %s' % la
+            sa, sb = sym_len(body, t.args[0]), sym_len(body, t.args[1])
+            if sa is not None and sb is not None and sa[0] == sb[0] and sa[0][0] != 'unknown' and \
+                    _term_stable(body, sa[0], sa[1], s.bb) and _term_stable(body, sb[0], sb[1], s.bb):
+                return 'both sides have the same length %s' % (describe_term(body, sa[0]),)
         return None
     if k == 'SplitAt':
         if len(t.args) >= 2:
@@ -813,6 +978,21 @@ def discharge(prog, body, s):
             iv = refined_interval(prog, body, s.bb, t.args[1])
             if K is not None and iv is not None and iv[1] <= K:
                 return 'split point %s within length %d' % (iv, K)
+            # split_at(K - a) on x, on a path where K <= a + len(x) was established (the other case left): K - a <= len(x)
+            sp = _cval(canon(body, t.args[1]))
+            sl = sym_len(body, t.args[0])
+            if sl is not None and sl[0][0] == 'len' and sp[0] == 'binop' and sp[1] == 'Sub' and sp[2][0] == 'const':
+                for (rel, x, y, d) in relations(prog, body, s.bb):
+                    x, y = _cval(x), _cval(y)
+                    if rel in ('le', 'lt', 'eq') and x == sp[2] and y[0] == 'binop' and y[1] == 'Add' and sorted([y[2], y[3]], key=repr) == sorted([sp[3], sl[0]], key=repr):
+                        return 'split point K - a with K <= a + len established by a dominating comparison'
+        return None
+    if k == 'FromSlice':
+        if t.args and t.dest is not None:
+            n = typenum_value(body.lty(t.dest[0]))
+            la = slice_len_of(body, t.args[0])
+            if n is not None and la == n:
+                return 'slice of constant length %d converted to a GenericArray of %d' % (la, n)
         return None
     if k == 'ChunkSize':
         if len(t.args) >= 2:
@@ -1221,3 +1401,15 @@ def accumulator_field(prog, body, site):
         if not fx:
             return None
     return _struct_path(fx)
+
+
+def describe_term(body, term):
+    if term[0] == 'const':
+        return str(term[1])
+    if term[0] == 'binop':
+        return '(%s %s %s)' % (describe_term(body, term[2]), {'Add': '+', 'Sub': '-', 'Mul': '*'}.get(term[1], term[1]), describe_term(body, term[3]))
+    if term[0] == 'len':
+        return 'len(%s)' % body.lname(term[1])
+    if term[0] == 'place':
+        return '%s%s' % (body.lname(term[1]), ''.join('.%s' % p[1] for p in term[2] if p[0] == 'f'))
+    return '?'
